@@ -1,5 +1,7 @@
 import MlModel.Lemmas.Pipe
 import MlModel.Lemmas.PipeBatch
+import MlModel.Lemmas.PipeBuild
+import MlModel.Lemmas.PipeHeap
 import MlModel.Properties.C19
 /-!
 # C08 — pipeline operators route data exactly as a reference interpreter
@@ -313,6 +315,39 @@ theorem C08_assign_frame (op : Op) (hk : op.kind = .assign) (names : List String
         simp only [hkeys, List.map_cons] at hw
         exact hflat _ _ (by simpa [hkeys] using hw)
 
+/-! ## the caller's objects are not written (heap-aware part, through the C18 model)
+
+`Model/PipeHeap.lean` runs `_get_outputs` — the output routing of `Assign` (onto the incoming record)
+and of `apply` (onto a `NullMap`) — on the cell heap of `Model/Tree.lean`: one `copy_and_set` per output
+key (plain key, nested `Key` path, `SELF`, `SKIP`), for a dict-form key the reads of its sources, a new
+tuple and one multi-key `copy_and_set` onto its record keys.  `Tree.Extends h h'`: `h'` is `h` plus
+newly allocated cells, every cell of `h` literally unchanged. -/
+
+/-- **C08_assign_no_write.**  For every heap (any sharing between records, cycles allowed), every
+record `base`, every list of output keys of every form — one or several, flat or NESTED paths into
+containers that already exist in the record, dict-form keys, `SELF`, `SKIP` — and every outputs of the
+function: routing the outputs into the record writes **no pre-existing object**.  Every cell of the heap
+before — the caller's record, its nested containers at every depth, the other records of the stream,
+whatever an upstream sink still holds — is unchanged, whether the routing succeeds or raises; hence
+(for a heap without dangling references) every read through any pre-existing object returns the very
+same object as before. -/
+theorem C08_assign_no_write (h : Tree.Heap) (base : Nat) (keys : List PipeHeap.HKey) (outs : List Nat) (t : Nat) :
+    (∀ r, r < h.size → (PipeHeap.getOutputsH false h base keys outs t).1[r]? = h[r]?) ∧
+    (Tree.Closed h → ∀ root, root < h.size → ∀ q,
+      Tree.get (PipeHeap.getOutputsH false h base keys outs t).1 root q = Tree.get h root q) :=
+  ⟨(PipeHeap.getOutputsH_extends h base keys outs t).2,
+   fun hc _ hroot q => Tree.get_extends hc (PipeHeap.getOutputsH_extends h base keys outs t) q hroot⟩
+
+/-- **C08_assign_stream_no_write.**  The same along a whole stream: after `Assign` has routed the
+outputs of any number of records (each onto its own record; the same record object may occur several
+times), no object that existed before the run has been written. -/
+theorem C08_assign_stream_no_write (keys : List PipeHeap.HKey) (jobs : List PipeHeap.Job) (h : Tree.Heap) :
+    (∀ r, r < h.size → (PipeHeap.assignAllH false keys h jobs).1[r]? = h[r]?) ∧
+    (Tree.Closed h → ∀ root, root < h.size → ∀ q,
+      Tree.get (PipeHeap.assignAllH false keys h jobs).1 root q = Tree.get h root q) :=
+  ⟨(PipeHeap.assignAllH_extends keys jobs h).2,
+   fun hc _ hroot q => Tree.get_extends hc (PipeHeap.assignAllH_extends keys jobs h) q hroot⟩
+
 /-! ## `filter` -/
 
 /-- **C08_filter** (order kept, nothing invented): whatever the predicate does — state, errors,
@@ -531,6 +566,118 @@ theorem C08_build_rejects_keys :
               simp only [List.any_eq_true]
               exact ⟨OutKey.key (.lit v), hmem, rfl⟩
 
+/-! ## the builder's key-set rule for every key form (dict-form keys included)
+
+An element of `assign_keys` is a key or a **dict-form key** `{record_key: source}`: `record_key` is the
+place that is written in the record (any key: a bare string, a `Key` path, `SELF`), `source` the place
+that is read in the function's output.  The two sides are unrelated; all of the builder's checks are
+about the *record-key* side. -/
+
+/-- **C08_build_rejects_dict.**  For every list of assign keys in every form — plain, several,
+dict-form with any source side, `Key` paths, `SELF` — and every set of existing record keys:
+1. if one of the record keys it writes (`Build.flatKeys`: for a dict-form key its *keys*) already
+   exists, `_check_assign_keys` raises (`KeyError('Duplicate output_keys')`);
+2. the written record keys of a dict-form key are exactly its keys, never its sources;
+3. the verdict does not depend on the source sides at all: two key lists writing the same record
+   keys get the same verdict;
+4. `SELF` next to any other key — written or existing, either way round — raises;
+5. a key list none of whose record keys exists, with `SELF` nowhere, is accepted — so a dict-form
+   key whose *source* happens to be spelled like an existing record key is legal. -/
+theorem C08_build_rejects_dict :
+    (∀ (ks : List OutKey) (existing : List Key) (k : Key), k ∈ Build.flatKeys ks →
+        existing.any (Build.keyEq k) = true → Build.checkAssignKeys ks existing = .error .key) ∧
+    (∀ (items : List (Key × Key)) (rest : List OutKey),
+        Build.flatKeys (.dict items :: rest) = items.map (·.1) ++ Build.flatKeys rest) ∧
+    (∀ (ks ks' : List OutKey) (existing : List Key), Build.flatKeys ks = Build.flatKeys ks' →
+        Build.checkAssignKeys ks existing = Build.checkAssignKeys ks' existing) ∧
+    (∀ (ks : List OutKey) (existing : List Key) (k : Key),
+        (Key.self ∈ Build.flatKeys ks ∨ Key.self ∈ existing) → (k ∈ Build.flatKeys ks ∨ k ∈ existing) →
+        k ≠ .self → Build.checkAssignKeys ks existing = .error .key) ∧
+    (∀ (ks : List OutKey) (existing : List Key),
+        (∀ k ∈ Build.flatKeys ks, existing.any (Build.keyEq k) = false) →
+        Key.self ∉ Build.flatKeys ks → Key.self ∉ existing → Build.checkAssignKeys ks existing = .ok ()) :=
+  ⟨fun _ _ _ hk hd => checkAssignKeys_dup hk hd, fun _ _ => rfl,
+   fun _ _ existing h => checkAssignKeys_congr h existing,
+   fun _ _ _ hs hk hne => checkAssignKeys_self hs hk hne,
+   fun _ _ hf hs hs' => checkAssignKeys_ok hf hs hs'⟩
+
+/-- **C08_build_keyset** — the reference "set of record keys after each operator" is what the
+builder tracks (`TreeTransform.output_keys`): unchanged behind a sink; exactly the operator's own
+record keys behind an `apply` / `select` (they replace the record: keys dropped by a `select` are gone);
+the old keys plus the operator's record keys behind an `assign` (a `filter` carries the old keys as
+book-keeping).  `SKIP` is never a record key; a dict-form key contributes its *keys*
+(`C08_build_rejects_dict`, item 2). -/
+theorem C08_build_keyset (fns : List Op) (fn : Op) (x : Key) :
+    x ∈ Build.outputKeys (fns ++ [fn]) ↔
+      if fn.kind = .sink then x ∈ Build.outputKeys fns
+      else if fn.kind = .apply ∨ fn.kind = .select then x ∈ Build.flatKeys fn.outKeys ∧ x ≠ .skip
+      else (x ∈ Build.outputKeys fns ∨ (x ∈ Build.flatKeys fn.outKeys ∧ x ≠ .skip)) :=
+  mem_outputKeys_snoc fns fn
+
+/-- **C08_build_rejects_produced.**  End to end through `TreeTransform.assign`: whatever has been
+built before (`st`), whatever the function, the input keys, the batch options and the *form* of the
+assign keys: if one of the record keys the call writes is a record key of the pipeline so far
+(`Build.outputKeys st.fns` — characterised operator by operator in `C08_build_keyset`), the call is
+rejected when the pipeline is built.  (`Key.Literal` keys are rejected for another reason:
+`C08_build_rejects_keys`.) -/
+theorem C08_build_rejects_produced (st : Build.St) (keys : Build.OutSpec) (fn : Option UFn) (s0 : Nat)
+    (inp : Build.InSpec) (fb b : Nat) (k : Key) (hk : k ∈ Build.flatKeys keys.normalize)
+    (hex : k ∈ Build.outputKeys st.fns) (hlit : ∀ v, k ≠ .lit v) :
+    Rejected (Build.step st (.assign keys fn s0 inp fb b)) := by
+  by_cases he : keys.isEmpty = true
+  · have := (C08_build_rejects st).2.2.2.2.1 fn s0 inp fb b
+    simpa [Build.step, he] using this
+  · simp only [Build.step, he, Bool.false_eq_true, if_false]
+    cases hm : Build.mkTreeFn .assign fn s0 inp keys.normalize fb b with
+    | error e => exact ⟨e, by simp [bind, Except.bind]⟩
+    | ok op =>
+      have hout : op.outKeys = keys.normalize := (mkTreeFn_fields hm).2.1
+      by_cases hemp : op.outKeys.isEmpty = true
+      · exact ⟨.value, by simp [bind, Except.bind, hemp, throw, throwThe, MonadExceptOf.throw]⟩
+      · have hck : Build.checkAssignKeys op.outKeys (Build.outputKeys st.fns) = .error .key := by
+          rw [hout]
+          exact checkAssignKeys_dup hk ((any_keyEq_iff hlit).mpr hex)
+        exact ⟨.key, by simp [bind, Except.bind, hemp, hck, pure, Except.pure]⟩
+
+/-- **C08_build_accepts_fresh** (no over-rejection): an `assign` whose options are fine
+(`mkTreeFn` succeeds), that names at least one key, none of whose record keys exists, with `SELF`
+nowhere and no aggregate before it, is accepted, and the builder appends exactly that operator —
+whatever the *source* sides of its dict-form keys are. -/
+theorem C08_build_accepts_fresh (st : Build.St) (keys : Build.OutSpec) (fn : Option UFn) (s0 : Nat)
+    (inp : Build.InSpec) (fb b : Nat) (op : Op) (he : keys.isEmpty = false)
+    (hm : Build.mkTreeFn .assign fn s0 inp keys.normalize fb b = .ok op) (hne : keys.normalize ≠ [])
+    (hfresh : ∀ k ∈ Build.flatKeys keys.normalize, (Build.outputKeys st.fns).any (Build.keyEq k) = false)
+    (hself : Key.self ∉ Build.flatKeys keys.normalize) (hself' : Key.self ∉ Build.outputKeys st.fns)
+    (hagg : st.hasAgg = false) :
+    Build.step st (.assign keys fn s0 inp fb b) = .ok { st with fns := st.fns ++ [op] } := by
+  have hout : op.outKeys = keys.normalize := (mkTreeFn_fields hm).2.1
+  have hemp : op.outKeys.isEmpty = false := by
+    rw [hout]; cases h : keys.normalize with
+    | nil => exact absurd h hne
+    | cons _ _ => rfl
+  have hck : Build.checkAssignKeys op.outKeys (Build.outputKeys st.fns) = .ok () := by
+    rw [hout]; exact checkAssignKeys_ok hfresh hself hself'
+  simp [Build.step, he, hm, bind, Except.bind, hemp, hck, Build.St.add, hagg, pure, Except.pure]
+
+/-- **C08_build_index0** (the repair of finding F-C08-index0): `Key.Index(i)` is a key for every `i`
+— `Index(0)` included, which is the falsy int `0` — and `''` is a key: "no key given" is the empty
+tuple / empty dict only.  So `assign(Key.Index(i), fn=f, input_keys=Key.Index(j))` on a fresh pipeline
+is accepted for every `i`, with that one output key. -/
+theorem C08_build_index0 (i j : Nat) (f : UFn) (s0 b : Nat) :
+    (Build.OutSpec.single (.key (.index i))).isEmpty = false ∧
+    (Build.OutSpec.single (.key (.name ""))).isEmpty = false ∧
+    Build.step {} (.assign (.single (.key (.index i))) (some f) s0 (.single (.index j)) 0 b) =
+      .ok { fns := [{ kind := .assign, inKeys := [.index j], outKeys := [.key (.index i)], fn := f,
+                      s0 := s0, batch := b }] } := by
+  have h0 : (Build.OutSpec.single (.key (.index i))).isEmpty = false := by
+    cases i <;> rfl
+  refine ⟨h0, rfl, ?_⟩
+  have hck : Build.checkAssignKeys [.key (.index i)] (Build.outputKeys []) = .ok () := by
+    rw [checkAssignKeys_single]
+    simp [Build.outputKeys, Build.keyEq]
+  simp [Build.step, h0, Build.mkTreeFn, Build.InSpec.normalize, Build.OutSpec.normalize, bind, Except.bind,
+    pure, Except.pure, hck, Build.St.add]
+
 /-- **C08_build_total_routing.**  For every operator whatsoever — so in particular for every chain the
 builder accepts — normalising the function's outputs against the output keys cannot fail: after the
 repair of F9 no key combination leads to a key-routing error (`IndexError` on `output_keys[0]`) at
@@ -611,7 +758,76 @@ example : (Impl.run false [exBatched] exColSrc).out.map colInts = [[1, 2, 3], [4
 example : Rebatch.WF 1 ([[Val.list [.int 0, .int 1, .int 2]], [Val.list [.int 3]]].map Ref.asBatch) := by
   decide
 
+/-! ### the heap-aware theorem is not true by construction -/
+
+/-- the record `{'x': 1, 'meta': {'id': 5}}` (cell 3; `meta` is cell 2) and the outputs `(10, 'even')`
+(cell 6) of a function -/
+def exHeap : Tree.Heap :=
+  #[.leaf (.int 1), .leaf (.int 5), .dict [(.str "id", 1)], .dict [(.str "x", 0), (.str "meta", 2)],
+    .leaf (.int 10), .leaf (.str "even"), .tuple [4, 5]]
+
+/-- `assign(('score', Key().meta.bucket), ..)` -/
+def exKeys : List PipeHeap.HKey := [.key [.str "score"], .key [.str "meta", .str "bucket"]]
+
+/-- the code (`copy_and_set` per key): the caller's `meta` dict (cell 2) and record (cell 3) are
+unchanged and the new record has a NEW `meta`; the variant "shallow-copy the record once, then set the
+keys in place" leaves the record cell alone but WRITES the caller's nested `meta` dict. -/
+example :
+    (PipeHeap.getOutputsH false exHeap 3 exKeys [4, 5] 6).1[2]? = exHeap[2]? ∧
+    (PipeHeap.getOutputsH false exHeap 3 exKeys [4, 5] 6).1[3]? = exHeap[3]? ∧
+    (match (PipeHeap.getOutputsH false exHeap 3 exKeys [4, 5] 6) with
+     | (h', .ok r) =>
+       (match Tree.get h' r [.str "meta"] with | .ok m => m != 2 | _ => false) &&
+       (match Tree.get h' r [.str "meta", .str "bucket"] with | .ok b => b == 5 | _ => false)
+     | _ => false) = true ∧
+    (let (h1, c) := Tree.shallowCopy exHeap 3
+     (PipeHeap.getOutputsH true h1 c exKeys [4, 5] 6).1[3]? = exHeap[3]? ∧
+     (PipeHeap.getOutputsH true h1 c exKeys [4, 5] 6).1[2]?
+       = some (.dict [(.str "id", 1), (.str "bucket", 5)])) := by
+  decide +kernel
+
+example : Tree.Closed exHeap := by
+  intro r n hn c hc
+  have hr : r < 7 := by
+    rcases Nat.lt_or_ge r 7 with h | h
+    · exact h
+    · rw [Array.getElem?_eq_none (by simpa [exHeap] using h)] at hn; cases hn
+  have : ∀ r < 7, ∀ n, exHeap[r]? = some n → ∀ c ∈ n.refs, c < 7 := by decide
+  exact this r hr n hn c hc
+
 example : Rejected (Build.step {} (.apply none 0 (.single .self) (.single (.key .self)) 2 0)) :=
   (C08_build_rejects {}).1 none 0 _ _ 2 (by decide)
+
+/-- the verdict of a sequence of builder calls as a Boolean (for the examples) -/
+def verdict (r : Except ErrKind Build.St) : Option ErrKind × Nat :=
+  match r with
+  | .error k => (some k, 0)
+  | .ok st => (none, st.fns.length)
+
+/-- `assign('bound', ..)` then `assign({'bound': 'hi'}, ..)`: the dict-form key writes the record key
+`bound`, which exists — rejected with `KeyError` (an instance of `C08_build_rejects_produced`); also
+behind a filter, and with a `Key` path record key `{Key().c.z: 'hi'}` after `assign(Key().c.z)` -/
+example :
+    verdict (Build.build {} [.assign (.single (.key (.name "bound"))) (some exAssign.fn) 0 (.single (.name "a")) 0 0,
+      .assign (.single (.dict [(.name "bound", .name "hi")])) (some exAssign.fn) 0 (.single (.name "a")) 0 0])
+      = (some .key, 0) ∧
+    verdict (Build.build {} [.assign (.single (.key (.name "bound"))) (some exAssign.fn) 0 (.single (.name "a")) 0 0,
+      .filter exFilter.fn 0 (.single (.name "a")),
+      .assign (.many [.key (.name "other"), .dict [(.name "bound", .name "hi")]]) (some exAssign.fn) 0 (.single (.name "a")) 0 0])
+      = (some .key, 0) ∧
+    verdict (Build.build {} [.assign (.single (.key (.path [.name "c", .name "z"]))) (some exAssign.fn) 0 (.single (.name "a")) 0 0,
+      .assign (.single (.dict [(.path [.name "c", .name "z"], .name "hi")])) (some exAssign.fn) 0 (.single (.name "a")) 0 0])
+      = (some .key, 0) := by
+  decide +kernel
+
+/-- `assign('hi', ..)` then `assign({'hi1': 'hi', 'lo1': 'lo'}, ..)`: only a *source* is spelled like an
+existing key — legal, accepted (an instance of `C08_build_accepts_fresh`); a `SELF` source is legal too -/
+example :
+    verdict (Build.build {} [.assign (.single (.key (.name "hi"))) (some exAssign.fn) 0 (.single (.name "a")) 0 0,
+      .assign (.single (.dict [(.name "hi1", .name "hi"), (.name "lo1", .name "lo")])) (some exAssign.fn) 0
+        (.single (.name "a")) 0 0,
+      .assign (.single (.dict [(.name "all", .self)])) (some exAssign.fn) 0 (.single (.name "a")) 0 0])
+      = (none, 3) := by
+  decide +kernel
 
 end MlModel.C08
